@@ -19,7 +19,7 @@ import warnings
 from asyncio.coroutines import iscoroutine, iscoroutinefunction
 from asyncio.exceptions import CancelledError
 from asyncio.locks import Event, Semaphore
-from asyncio.tasks import Task, create_task, gather
+from asyncio.tasks import Task, create_task, ensure_future, gather
 from contextlib import suppress
 from math import inf
 from typing import (
@@ -704,12 +704,17 @@ class BaseTaskPool:
             for task_set in self._group_meta_tasks_running.values()
             for task in task_set
         )
-        with suppress(CancelledError):
-            await gather(
-                *self._meta_tasks_cancelled,
-                *not_cancelled_meta_tasks,
-                return_exceptions=return_exceptions,
-            )
+        meta_tasks = [
+            ensure_future(task)
+            for task in (*self._meta_tasks_cancelled, *not_cancelled_meta_tasks)
+        ]
+        # A meta task that was cancelled before it ever ran makes `gather`
+        # return (with a `CancelledError`) right away, no matter if the other
+        # meta tasks are done or not. Thus we repeat until _all_ are done.
+        while meta_tasks:
+            with suppress(CancelledError):
+                await gather(*meta_tasks, return_exceptions=return_exceptions)
+            meta_tasks = [task for task in meta_tasks if not task.done()]
         self._meta_tasks_cancelled.clear()
         self._group_meta_tasks_running.clear()
         await gather(
